@@ -21,6 +21,13 @@ def run_file(path, only=None, repo_root=None, verbose=False):
         results.append(fr)
         if verbose:
             print_result(fr)
+    for p_ in sorted({l["prop"] for l in S.REG.lemmas}):
+        if only and "lemma" not in only:
+            continue
+        fr = V.verify_lemmas(p_, path)
+        results.append(fr)
+        if verbose:
+            print_result(fr)
     return results, repo
 
 
